@@ -185,6 +185,48 @@ def replay_path(run, g, path, cat, seed, pi):
     return True
 
 
+def app_ping_with_keepalive(r):
+    """An application-issued ping while a keep-alive ping of the library is still unanswered (full default stack, virtual time): the pong
+    for the application's ping reaches its callback once, whichever pong arrives first, and the keep-alive's own pong invokes nothing."""
+    from harness import e2ekit, sched
+    from harness.props import c16
+    from yowsup.layers.protocol_iq.protocolentities import PingIqProtocolEntity
+    roots = e2ekit.Roots()
+    try:
+        for order in ("app-first", "keepalive-first"):
+            r.case(("app-ping-with-keepalive", order))
+            r.cov["traces_validated_against_impl"] += 1
+            w = c16.World(True, True)
+            calls = []
+            try:
+                w.start()
+                for act in ({"name": "ConnectRequest"}, {"name": "DispatcherConnected"}, {"name": "Success"}, {"name": "PingTick"}):
+                    w.do(act)
+                if len(w.pings) != 1:
+                    raise core.MachineryError("keep-alive ping not seen by the server double (%s)" % w.pings)
+                ent = PingIqProtocolEntity()
+
+                def submit():
+                    w.iface._sendIq(ent, lambda res, orig: calls.append(("ok", res.getId(), orig is ent)), lambda res, orig: calls.append(("err", res.getId(), orig is ent)))
+                t = w.s.spawn("appping", submit)
+                w.s.quiesce(lambda rr, sc: ([x for x in rr if x.name == "appping"] or rr)[0])
+                if len(w.pings) != 2 or w.pings[1] != ent.getId():
+                    r.violation("request:not-sent:app-ping", "the application's ping did not reach the server (pings seen: %s)" % w.pings, {"order": order})
+                    continue
+                for idx in ((2, 1) if order == "app-first" else (1, 2)):
+                    w.do({"name": "Pong", "id": idx})
+                want = [("ok", ent.getId(), True)]
+                if calls != want or w.problems:
+                    r.violation("callbacks:app-ping-with-keepalive:%s" % order, "application ping answered while a keep-alive ping was outstanding (%s): callbacks %s, expected %s %s" % (
+                        order, calls, want, w.problems[:1]), {"order": order})
+            except sched.Deadlock as e:
+                r.violation("hang:app-ping-with-keepalive", "%s: %s" % (order, e), {"order": order})
+            finally:
+                w.close()
+    finally:
+        roots.close()
+
+
 def run():
     r = core.Run("C08", "model_checking")
     thorough = r.tier == "thorough"
@@ -229,6 +271,7 @@ def run():
         replay_path(r, g, p, cat, core.seed() + 17, 100000 + wi)
         r.case(("walk", tuple(p), wi))
         r.cov["traces_validated_against_impl"] += 1
+    app_ping_with_keepalive(r)
     r.assumptions += core.ENV_ASSUMPTIONS[:1] + ["library-internal key fetch / key upload / group-info requests are exercised by the end-to-end checks (C03, C14), not here",
                       "concrete result/error stanzas come from the hand-written catalogue (harness/catalogue.py)"]
     return r.finish()
